@@ -108,6 +108,20 @@ func mainCheck(args []string) (code int) {
 	}
 	seed, _ := strconv.Atoi(os.Getenv("VERIF_SEED"))
 	ruleIDs, ok := PropRules[*prop]
+	if *prop == "ALL" {
+		// development aid (mutation sweep): the union of all rules in one process; never registered as a check
+		seenRule := map[string]bool{}
+		for _, rs := range PropRules {
+			for _, r := range rs {
+				if !seenRule[r] {
+					seenRule[r] = true
+					ruleIDs = append(ruleIDs, r)
+				}
+			}
+		}
+		ok = true
+		*noEvidence = true
+	}
 	if !ok {
 		fmt.Fprintf(os.Stderr, "property %q is not claimed by this checker\n", *prop)
 		return 2
@@ -168,6 +182,11 @@ func mainCheck(args []string) (code int) {
 	if err != nil {
 		fmt.Fprintln(os.Stderr, "mqttverif:", err)
 		return 2
+	}
+	if *prop == "ALL" {
+		for i := range findings {
+			findings[i].Property = "ALL"
+		}
 	}
 	hits := c.S.ApplyFindings(findings)
 	for _, h := range hits {
